@@ -135,7 +135,7 @@ func Run(r *ev.Run) {
 	if r.Thorough() {
 		depth = 8
 	}
-	r.Rule(fmt.Sprintf("E4 histories: EVERY sequence of length %d (hence all shorter ones as prefixes) over the 10-event alphabet {resolve(n1), resolve(n2), advance 1s/2s/5s/300s, zone->next version (3 versions whose answers differ in content and carry TTL vectors [5],[2,5],[5,2],[0],[0,5],[1],[2,2],[1000],[1000,400], CNAME+A, CNAME-only, empty), toggle upstream SERVFAIL (carrying a CNAME in its answer section), toggle upstream HTTP 400, toggle upstream RCODE 9 (a failure code without a named error)} replayed on a fresh Resolver with a virtual clock (starting 700 ms past a whole second) and an in-memory DoH responder, a map-based cache model stepped alongside: per call the model predicts for each key (name,type) whether an upstream query must / must not be sent and which zone version the returned content may come from; plus the deterministic write-footprint oracle on results sharing cached records and repeated lookups of names whose HTTPS RRset has several records (out of priority order / an alias-mode record in the middle); interleavings are explored by the scheduler-based part (see evidence key interleavings). distinct = distinct histories", depth))
+	r.Rule(fmt.Sprintf("E4 histories: EVERY sequence of length %d (hence all shorter ones as prefixes) over the 11-event alphabet {resolve(n1), resolve(n2), advance 1s/5s/300s, toggle NXDOMAIN for HTTPS queries only, re-size the cache to 64, zone->next version (3 versions whose answers differ in content and carry TTL vectors [5],[2,5],[5,2],[0],[0,5],[1],[2,2],[1000],[1000,400], CNAME+A, CNAME-only, empty), toggle upstream SERVFAIL (carrying a CNAME in its answer section), toggle upstream HTTP 400, toggle upstream RCODE 9 (a failure code without a named error)} replayed on a fresh Resolver with a virtual clock (starting 700 ms past a whole second) and an in-memory DoH responder, a map-based cache model stepped alongside: per call the model predicts for each key (name,type) whether an upstream query must / must not be sent and which zone version the returned content may come from; plus the deterministic write-footprint oracle on results sharing cached records and repeated lookups of names whose HTTPS RRset has several records (out of priority order / an alias-mode record in the middle); interleavings are explored by the scheduler-based part (see evidence key interleavings). distinct = distinct histories", depth))
 	r.Assume("responses without any record have no TTL: the property sets no bound for them (the code keeps them 300 s); either a query or a cache hit is accepted for such keys",
 		"clock and DoH transport are owned through the verif hooks; 5xx upstream failures are not used because retryablehttp would back off in real time",
 		"plain-memory data races are outside a cooperative scheduler's sight: the write-footprint oracle covers writes by operations that must be read-only")
